@@ -50,7 +50,7 @@ func TestRun(t *testing.T) {
 		rand.Seed(job.Seed + int64(i))
 		synctest.Test(t, func(t *testing.T) {
 			ids := append(append([]string{}, sc.Voters...), sc.Extra...)
-			rec.Begin(sc.Name, Ev{"voters": sc.Voters, "extra": orEmpty(sc.Extra), "family": sc.Family, "controlled": sc.Controlled})
+			rec.Begin(sc.Name, Ev{"voters": sc.Voters, "extra": orEmpty(sc.Extra), "family": sc.Family, "controlled": sc.Controlled, "attack": sc.Attack})
 			c := NewCluster(t, rec, ids)
 			defer c.Cleanup()
 			r := &Runner{c: c, sc: sc}
